@@ -25,6 +25,10 @@ type dagCase struct {
 	// Prev, when set, is a plan the same Processor instances have processed before this one
 	// (a long-lived Processor): the result must not depend on it.
 	Prev *dagCase `json:"prev,omitempty"`
+	// Hide (with Nest): a fetch whose only dependency is the producer of its parent path is
+	// handed over WITHOUT that dependency, as planners of plain nested data sources do; the
+	// post-processor has to add it back from the response paths (any nesting depth).
+	Hide bool `json:"hide,omitempty"`
 }
 
 var dagPart = pbt.Part[dagCase]{Name: "dag-structural", Journal: true, Quick: 60000, Thorough: 1200000, Gen: genDag, Check: checkDag}
@@ -41,6 +45,7 @@ func genDag(t *rapid.T) dagCase {
 func genOneDag(t *rapid.T) dagCase {
 	n := rapid.IntRange(2, 14).Draw(t, "n")
 	c := dagCase{Deps: make([][]int, n), DupOf: make([]int, n), Nest: rapid.Bool().Draw(t, "nest")}
+	c.Hide = c.Nest && rapid.IntRange(0, 2).Draw(t, "hide") == 0
 	for i := 0; i < n; i++ {
 		c.DupOf[i] = -1
 		if i == 0 {
@@ -137,6 +142,12 @@ func rawFetches(c dagCase) []*resolve.FetchItem {
 			path[i] = path[c.Deps[r][0]] + "." + path[i]
 		}
 	}
+	declared := func(i int) []int {
+		if c.Hide && len(c.Deps[i]) == 1 && strings.HasPrefix(path[i], path[c.Deps[i][0]]+".") {
+			return []int{}
+		}
+		return append([]int{}, c.Deps[i]...)
+	}
 	var raw []*resolve.FetchItem
 	for _, i := range c.Order {
 		r := rep(i)
@@ -148,7 +159,7 @@ func rawFetches(c dagCase) []*resolve.FetchItem {
 		raw = append(raw, &resolve.FetchItem{
 			Fetch: &resolve.SingleFetch{
 				FetchConfiguration: resolve.FetchConfiguration{Input: fmt.Sprintf(`{"method":"POST","url":"http://s%d","body":{"query":"{f%d}"}}`, r%3, r)},
-				FetchDependencies:  resolve.FetchDependencies{FetchID: i, DependsOnFetchIDs: append([]int{}, c.Deps[i]...)},
+				FetchDependencies:  resolve.FetchDependencies{FetchID: i, DependsOnFetchIDs: declared(i)},
 				Info:               &resolve.FetchInfo{DataSourceID: fmt.Sprint("s", r%3), DataSourceName: fmt.Sprint("s", r%3), OperationType: ast.OperationTypeQuery},
 			},
 			FetchPath:    fp,
